@@ -23,6 +23,15 @@ def mk_tr(spec):
     raise ValueError(spec)
 
 
+def is_empty_pipeline(t):
+    """a composition that contains no pass at all (nothing to apply: the code returns its argument)"""
+    if isinstance(t, list) and t and t[0] == 'comp':
+        return all(is_empty_pipeline(x) for x in t[1])
+    if isinstance(t, list) and t and t[0] == 'or':
+        return is_empty_pipeline(t[1]) and is_empty_pipeline(t[2])
+    return False
+
+
 def py_passes(req):
     from cirbo.core.circuit.transformer import Transformer
     from cirbo.minimization.simplification import cleanup
@@ -42,7 +51,7 @@ def py_passes(req):
             raise ValueError(mode)
         if circ_to_json(c) != before:
             return {'err': 'Py:AssertionError(argument modified)'}
-        if r is c and mode != 'apply' and not (mode in ('transform', 'raw') and isinstance(req['t'], list) and req['t'][0] == 'comp'):
+        if r is c and mode != 'apply' and not (mode in ('transform', 'raw') and is_empty_pipeline(req['t'])):
             return {'err': 'Py:AssertionError(same object returned)'}
         return {'ok': circ_to_json(r)}
     except Exception as e:  # noqa: BLE001
